@@ -176,6 +176,17 @@ CHECKS["C10"] = ("DESIGN.md C10",
     "completed). This is a finite enumeration driven by the solver; the inductive step for the module "
     "stack is what extends to histories of any length.")
 
+CHECKS["C11"] = ("DESIGN.md C11",
+    "Unit level: NodeRequire.evaluate on a pre-seeded module cache whose symbol table is up to 3 "
+    "(thorough 4) names drawn by symbolic selectors from a pool (public, _private, __dunder, nested "
+    "module object) under every import form (qualified / as / unqualified / import list with symbolic "
+    "membership and aliases): the importer's scope must change by exactly the requested names, no "
+    "underscore name is exported. API level: importer programs of 2 (thorough 3) import statements "
+    "chosen by symbolic selectors over 12 forms against real user modules (chain, diamond, 2-cycle, "
+    "self-require, private/public mix, shadowing): each body runs at most once, all importers share "
+    "one instance, module code cannot see importer variables, cycles are errors, private names are "
+    "unreachable. Finite-domain enumeration driven by the solver.")
+
 NA = {}
 
 
